@@ -671,5 +671,32 @@ def _install():
     if square_rule not in PROPERTIES["C01"]["rules"]:
         PROPERTIES["C01"]["rules"].append(square_rule)
 
+    # round 12: two rules claimed for one more property each (the same analysis, reported under the
+    # property whose clause it decides)
+    from .ld_rules import orth_rule, inv_at_rule
+
+    def inv_orth_rule(ctx):
+        """INV-ORTH = ORTH-REV (shared with C11, C01): HouseholderSequence.inverse undoes forward only if it
+        applies the same reflections in reversed order, each vector paired with its own squared norm."""
+        r = orth_rule(ctx)
+        r.rule = "INV-ORTH"
+        for f in r.findings:
+            f.rule = "INV-ORTH"
+        return r
+
+    def cov_at_rule(ctx):
+        """COV-AT = INV-AT / LD-AT (shared with C02, C01): log_prob adds the transform's log-abs-det to the
+        base density at the transformed point; a direction whose log-det formula is evaluated at another
+        point than the one its sibling direction uses is not the Jacobian of the map applied, and the
+        density stops integrating to one."""
+        r = inv_at_rule(ctx)
+        r.rule = "COV-AT"
+        for f in r.findings:
+            f.rule = "COV-AT"
+        return r
+
+    PROPERTIES["C02"]["rules"].append(inv_orth_rule)
+    PROPERTIES["C03"]["rules"].append(cov_at_rule)
+
 
 _install()
